@@ -33,6 +33,51 @@ CHECKS = {
                 'input (C03/C04), the two writers (outside Verus).',
         'technique': TECH + '; representation invariant + history-free postconditions',
     },
+    'C07': {
+        'level': 'proof',
+        'text': 'Model::read_slice is proved, for every byte slice, to never index out of range, to return an error when the input is shorter '
+                'than the 25-byte header or the header differs, and on success to return exactly slice[25 + size ..] where size is the byte count '
+                'reported by the payload decoder (no overflow, in range).',
+        'design_ref': 'DESIGN.md section 5.C07',
+        'note': 'ASSUMED: bincode::decode_from_slice returns size <= input length (its derive-generated decoders are outside the unit); R6 byte list '
+                'generated from the literal. Not covered: encoder/decoder symmetry, truncation inside the payload, io::Read/Write paths.',
+        'technique': TECH + '; header/remainder arithmetic against an assumed decoder contract',
+    },
+    'C08': {
+        'level': 'proof',
+        'text': 'History collapsing: update_raw / update_tokenized / update_partial_annotation / set_default carry NO precondition and ensure a '
+                'post-state that does not mention old(self) (raw_state / annotated_state / default_state), plus lemma '
+                'raw_state(a) && raw_state(b) && a.text == b.text ==> equal views; so any history followed by update_raw(x) equals from_raw(x). '
+                'Predictor::predict re-initialisation is under C01/C13 units.',
+        'design_ref': 'DESIGN.md section 5.C08',
+        'note': 'Thread clause not covered (no contract-level notion of threads here). tag_scores is outside the view. Trusted base as C05.',
+        'technique': TECH + '; precondition-free update contracts + function-of-text lemma',
+    },
+    'C15': {
+        'level': 'proof',
+        'text': 'KyteaWsConstFilter::filter is proved, for every sentence satisfying the shape invariant and every character type, to produce exactly '
+                'the rule (boundary i cleared iff types i and i+1 equal the filter type, otherwise unchanged), to leave every other field untouched, '
+                'to keep the invariant, with every get_unchecked index proved in range; idempotence and only-clears are lemmas over the rule.',
+        'design_ref': 'DESIGN.md section 5.C15',
+        'note': 'Not covered by proof: grapheme filter and pattern tagger (external crates), line-break filter (see DESIGN); those are only exercised by the bounded thorough sweep.',
+        'technique': TECH + '; rule as a spec function + frame postcondition',
+    },
+    'C16': {
+        'level': 'proof',
+        'text': 'KyteaFullwidthFilter::filter is proved for every string: output has the same number of characters, position i of the output is '
+                'fw(input[i]) where fw is the match table re-extracted verbatim from the source on every run, fw is idempotent and never produces NUL.',
+        'design_ref': 'DESIGN.md section 5.C16',
+        'note': 'R13 instantiates S = &str (as_ref is the identity there). Tantivy stream half not covered.',
+        'technique': TECH + '; table extracted as spec function, loop invariant over all strings',
+    },
+    'C19': {
+        'level': 'proof',
+        'text': 'Model::replace_dictionary is proved to store exactly the argument and leave every other field of the model equal to its old value; '
+                'dictionary()/tag_models() return those fields; WordWeightRecord::new succeeds iff weights.len() == chars(word)+1 and stores its arguments unchanged.',
+        'design_ref': 'DESIGN.md section 5.C19',
+        'note': 'R10: word.chars().count() replaced by a verified counting loop (Iterator::count has no vstd spec). CSV tool and the score-difference composition not covered.',
+        'technique': TECH + '; frame conditions on the model record',
+    },
 }
 
 NOT_APPLICABLE = {
@@ -47,7 +92,7 @@ NOT_APPLICABLE = {
 }
 
 
-PENDING = ['C01','C06','C07','C08','C13','C14','C15','C16','C18','C19']
+PENDING = ['C01','C06','C13','C14','C18']
 
 
 def main():
